@@ -702,6 +702,26 @@ theorem coreStatV_det [One P] [Mul P] (B : Backend Q P) (cfg : Cfg) (mode : Mode
           subst i1 i2
           cases a <;> exact ⟨rfl, rfl⟩
 
+theorem runV_det [One P] [Mul P] (B : Backend Q P) (cfg : Cfg) (mode : Mode) (c : Circuit)
+    (bits0 : Option (List Int)) (st : Q) (mr : Option (List Int)) (rng rng' : List Int) (hd : Det mode c mr) :
+    runV B cfg mode c bits0 st mr rng = runV B cfg mode c bits0 st mr rng' := by
+  obtain ⟨h1, h2, _⟩ := coreRun_det B cfg mode c bits0 st mr rng rng' hd
+  unfold runV
+  rw [h1, h2]
+
+theorem statV_det [One P] [Mul P] (B : Backend Q P) (cfg : Cfg) (mode : Mode) (c : Circuit)
+    (bits0 : Option (List Int)) (st : Q) (rng rng' : List Int) :
+    statV B cfg mode c bits0 st rng = statV B cfg mode c bits0 st rng' := by
+  unfold statV
+  rw [(coreStatV_det B cfg mode c bits0 st (records c.numMeas) rng rng' (records_det mode c)).1]
+
+/-- the calls whose result does not depend on the random generator: `run_statistics`, and `run` in density-matrix
+mode, with prescribed outcomes, or on a circuit without measurement -/
+def CallDet (mode : Mode) (c : Circuit) : Call Q → Prop
+  | .run _ _ mr => Det mode c mr
+  | .stat _ _ => True
+  | _ => False
+
 /-! ## No aliasing between results -/
 
 /-- the list objects a returned result refers to -/
